@@ -4,6 +4,7 @@ from __future__ import annotations
 
 import math
 import uuid
+from pathlib import Path
 
 import numpy as np
 
@@ -133,6 +134,20 @@ def random_case(rng, task, n_vocab=None, n_clips=None):
         clips.append(clip)
     if not any(c["only"] == "both" for c in clips):
         clips[0]["only"] = "both"
+    for c in clips:
+        if rng.random() < 0.2:
+            c["pred_clip_copy"] = rng.choice(["features", "relocated"])
+    if task == "sound_event_classification" and len(clips) >= 2 and rng.random() < 0.3:
+        # overlapping clips of one recording: the SAME sound event is annotated (differently) in two clips
+        a, b = rng.sample(range(len(clips)), 2)
+        if clips[a]["events"]:
+            ev = dict(clips[a]["events"][0])
+            ev["shared"] = rng.getrandbits(20)
+            clips[a]["events"][0] = ev
+            twin = dict(ev)
+            twin["ann_tags"] = _true_tags(rng, vocab, pool)
+            twin["pred_tags"] = _pred_tags(rng, vocab, pool)
+            clips[b]["events"].append(twin)
     return {"task": task, "vocab": vocab, "clips": clips}
 
 
@@ -155,16 +170,22 @@ def build(spec, order=None):
     for ci in order:
         c = spec["clips"][ci]
         clip = data.Clip(uuid=_u("clip", ci), recording=rec, start_time=c["t0"], end_time=c["t0"] + 1000.0)
+        pclip = clip
+        if c.get("pred_clip_copy"):
+            # the model run carries its own Clip object: same uuid, but with clip-level features / a relocated recording
+            rec2 = rec.model_copy(update={"path": Path("/elsewhere") / "r.wav"}) if c["pred_clip_copy"] == "relocated" else rec
+            pclip = clip.model_copy(update={"features": [data.Feature(term=data.term_from_key("snr"), value=3.5)], "recording": rec2})
         anns, preds = [], []
         for ei, e in enumerate(c["events"]):
             g = geoms.build(e["geom"]) if e.get("geom") is not None else None
             if e["kind"] in ("ann", "both_same_event"):
-                se = data.SoundEvent(uuid=_u("se", ci, ei), geometry=g, recording=rec)
+                se = data.SoundEvent(uuid=_u("se_shared", e["shared"]) if e.get("shared") is not None else _u("se", ci, ei), geometry=g, recording=rec)
                 a = data.SoundEventAnnotation(uuid=_u("sea", ci, ei), sound_event=se, tags=[tag(t) for t in e["ann_tags"]])
                 anns.append(a)
                 idx["ann"][str(a.uuid)] = (ci, ei)
             if e["kind"] in ("pred", "both_same_event"):
-                se = data.SoundEvent(uuid=_u("se", ci, ei) if e["kind"] == "both_same_event" else _u("sep", ci, ei), geometry=g, recording=rec)
+                se = data.SoundEvent(uuid=(_u("se_shared", e["shared"]) if e.get("shared") is not None else _u("se", ci, ei)) if e["kind"] == "both_same_event" else _u("sep", ci, ei),
+                                     geometry=g, recording=rec)
                 p = data.SoundEventPrediction(uuid=_u("sepred", ci, ei), sound_event=se, score=e.get("pred_score", 1.0),
                                               tags=[data.PredictedTag(tag=tag(t), score=t[2]) for t in e["pred_tags"]])
                 preds.append(p)
@@ -172,7 +193,7 @@ def build(spec, order=None):
         if c["only"] in ("both", "ann"):
             cas.append(data.ClipAnnotation(uuid=_u("ca", ci), clip=clip, sound_events=anns, tags=[tag(t) for t in c["ann_tags"]]))
         if c["only"] in ("both", "pred"):
-            cps.append(data.ClipPrediction(uuid=_u("cp", ci), clip=clip, sound_events=preds,
+            cps.append(data.ClipPrediction(uuid=_u("cp", ci), clip=pclip, sound_events=preds,
                                            tags=[data.PredictedTag(tag=tag(t), score=t[2]) for t in c["pred_tags"]]))
     return cps, cas, [tag(t) for t in spec["vocab"]], idx
 
